@@ -176,7 +176,7 @@ def close(obs, exp):
 
 def run_case(case):
     key0 = {"family": case["family"], "cls": case.get("cls", "baseline"), "entry": case["entry"], "feed": case["feed"],
-            "meter": case["meter"]}
+            "meter_day": "06:00" if case["meter"] == "daily06" else "midnight"}
     inputs, days, times, values = build_inputs(case)
     ref = tempday.day_stats(times, values, days)
     cls = probe_class(case["family"], case.get("cls", "baseline"))
@@ -320,7 +320,7 @@ def cases(tier):
                             lattice=1 if feed == 60 else 4)
                     add({"family": "billing", "cls": "reporting", "entry": "from_series", "feed": feed, "feed_zone": "same",
                          "meter": "billing", "zone": z, "window": w, "dst_pos": 2}, 1, lattice=6 * 60 // feed)
-    # ---- d = 2 (thorough): two runs, 3-hour lattice (hourly feed) / 6-hour lattice (half-hourly feed)
+    # ---- d = 2 (thorough): two runs, 4-hour lattice (hourly feed) / 6-hour lattice (half-hourly feed)
     if not quick:
         for w in ("spring", "autumn"):
             for feed in (60, 30):
@@ -329,7 +329,7 @@ def cases(tier):
                         continue
                     add({"family": "daily", "cls": "baseline", "entry": "from_series", "feed": feed, "feed_zone": "same",
                          "meter": meter, "zone": "America/Chicago", "window": w, "dst_pos": 2}, 2,
-                        lattice=3 if feed == 60 else 12)
+                        lattice=4 if feed == 60 else 12)
         add({"family": "billing", "cls": "baseline", "entry": "from_series", "feed": 60, "feed_zone": "same",
              "meter": "billing", "zone": "America/Chicago", "window": "spring", "dst_pos": 2}, 2, lattice=6)
     return out
